@@ -232,6 +232,21 @@ pub fn check_graph(rep: &mut Report, drv: &mut Driver, g: &Graph, info: &TreeInf
                 json!({"origin": origin, "source": src, "graph": gs.pretty(), "file_tail": written.chars().rev().take(120).collect::<String>().chars().rev().collect::<String>()})),
         }
     }
+    // the output and the in-memory API tell the same story about edges: every listed edge is found by `get_edge`, nothing else is
+    {
+        let nodes: Vec<_> = g.iter_nodes().collect();
+        'outer: for n in &nodes {
+            let sinks: Vec<usize> = g[*n].iter_edges().map(|(s, _)| s.index()).collect();
+            for m in &nodes {
+                let listed = sinks.contains(&m.index());
+                if g[*n].get_edge(*m).is_some() != listed {
+                    rep.fail("direct", "C14 get_edge disagrees with the edges that iter_edges, the JSON and the pretty form list", true,
+                        json!({"origin": origin, "source": src, "graph": gs.pretty(), "source_node": n.index(), "sink": m.index(), "listed": listed}));
+                    break 'outer;
+                }
+            }
+        }
+    }
     match decode_graph(&jv, info) {
         Some(dec) if dec == gs => {}
         other => rep.fail("direct", "C14 decoding the JSON does not reconstruct the in-memory graph", true,
